@@ -1,6 +1,7 @@
 package rules
 
 import (
+	"go/token"
 	"fmt"
 	"go/constant"
 	"go/types"
@@ -29,7 +30,7 @@ func runC20(e *Env) {
 	r := e.R
 	r.Rule("C20.R1", "absint", "IsNoResponseCode ≠ nil ⇔ (class=2 ∧ v&2) ∨ (class=4 ∧ v&8) ∨ (class=5 ∧ v&16), for every code class × bit setting", 72)
 	r.Rule("C20.R2", "paths+flows", "SetResponse checks before mutating; New reads option 258 from the whole request option list; construction sites pass the request's options", 7)
-	r.Rule("C20.R3", "paths", "unmodified response: bare ACK for CON, nothing otherwise", 3)
+	r.Rule("C20.R3", "paths", "unmodified response: bare ACK for CON, nothing otherwise", 2)
 	r.Rule("C20.R4", "callgraph", "who may set the code of a response writer's message: only SetResponse (after its check) and the bare-ACK arm", 2)
 	if e.want("C20.R4") {
 		c20WhoSetsCode(e)
@@ -264,7 +265,7 @@ func c20Wiring(e *Env) {
 func c20Unmodified(e *Env) {
 	rule := "C20.R3"
 	// sendJustAcknowledgeMessage ⇔ reqType == Confirmable ∧ !IsModified
-	if f := e.fn(rule, "udp/client.sendJustAcknowledgeMessage"); f != nil {
+	if f := e.P.Func("udp/client.sendJustAcknowledgeMessage"); f != nil { // optional: the two tests may be written out in processResponse
 		hasCon, hasMod := false, false
 		core.Instrs(f, func(in ssa.Instruction) {
 			if b, ok := in.(*ssa.BinOp); ok && b.Op.String() == "==" {
@@ -280,28 +281,46 @@ func c20Unmodified(e *Env) {
 	}
 	// processResponse: on the bare-ACK arm the code is set to Empty and the type to Acknowledgement
 	if f := e.fn(rule, "udp/client.Conn.processResponse"); f != nil {
-		var arm *ssa.If
-		for _, i := range core.IfsOf(f) {
-			cond, _ := core.StripNot(i.Cond)
-			if _, ok := core.CondCall(cond, "udp/client.sendJustAcknowledgeMessage"); ok {
-				arm = i
+		// the bare acknowledgement: code 0.00 set on the response, only for a confirmable request whose handler set no response
+		var ack ssa.Instruction
+		for _, c := range core.CallsNamed(f, "message/pool.Message.SetCode") {
+			if k, isC := core.ConstInt(core.Arg(c, 1)); isC && k == 0 {
+				ack = c.(ssa.Instruction)
 			}
 		}
-		if arm == nil {
-			e.R.Fail(rule, "udp/client.Conn.processResponse:bare-ack-arm", e.fpos(f), "processResponse no longer branches on sendJustAcknowledgeMessage")
+		if ack == nil {
+			e.R.Fail(rule, "udp/client.Conn.processResponse:bare-ack-arm", e.fpos(f), "processResponse no longer produces a bare acknowledgement (code 0.00)")
 		} else {
-			okCode, okType := false, false
-			for _, c := range core.CallsNamed(f, "message/pool.Message.SetCode") {
-				if k, isC := core.ConstInt(core.Arg(c, 1)); isC && k == 0 && core.OnlyViaEdge(arm, true, c.(ssa.Instruction)) {
-					okCode = true
+			// guarded by the predicate helper (checked above), or by the two tests written out
+			_, viaHelper := core.GuardedBy(ack, func(cond ssa.Value) core.CondMatch {
+				if _, ok := core.CondCall(cond, "udp/client.sendJustAcknowledgeMessage"); ok {
+					return core.CondMatch{Match: true, Branch: true}
 				}
-			}
+				return core.CondMatch{}
+			})
+			_, unmod := core.GuardedBy(ack, func(cond ssa.Value) core.CondMatch {
+				if _, ok := core.CondCall(cond, "message/pool.Message.IsModified"); ok {
+					return core.CondMatch{Match: true, Branch: false}
+				}
+				return core.CondMatch{}
+			})
+			_, con := core.GuardedBy(ack, func(cond ssa.Value) core.CondMatch {
+				cmp, ok := core.AsCmp(cond)
+				if !ok || (cmp.Op != token.EQL && cmp.Op != token.NEQ) || len(f.Params) < 2 || core.Resolve(cmp.X) != ssa.Value(f.Params[1]) {
+					return core.CondMatch{}
+				}
+				if k, isK := core.ConstInt(cmp.Y); isK && k == 0 {
+					return core.CondMatch{Match: true, Branch: cmp.Op == token.EQL}
+				}
+				return core.CondMatch{}
+			})
+			okType := false
 			for _, c := range core.CallsNamed(f, "message/pool.Message.SetType") {
-				if k, isC := core.ConstInt(core.Arg(c, 1)); isC && k == 2 && core.OnlyViaEdge(arm, true, c.(ssa.Instruction)) {
+				if k, isC := core.ConstInt(core.Arg(c, 1)); isC && k == 2 && (core.Dominates(c.(ssa.Instruction), ack) || core.Dominates(ack, c.(ssa.Instruction))) {
 					okType = true
 				}
 			}
-			e.R.Check(okCode && okType, rule, "udp/client.Conn.processResponse:bare-ack-arm", e.pos(arm), "unmodified response to CON: code Empty(0), type Acknowledgement(2)", "the bare-ACK arm does not produce an empty acknowledgement")
+			e.R.Check((viaHelper || (unmod && con)) && okType, rule, "udp/client.Conn.processResponse:bare-ack-arm", e.pos(ack), "unmodified response to CON: code Empty(0), type Acknowledgement(2)", "the bare-ACK arm does not produce an empty acknowledgement exactly for an unmodified response to a confirmable request")
 		}
 	}
 	// TCP: the response is written only if modified
